@@ -565,7 +565,15 @@ def recode(fn, ovld, recurse_sym, call_next_sym, newname):
             " to force a refresh, or remove __pycache__ altogether. If that does not work,"
             " avoid calling recurse()/call_next()"
         )
-    tree = ast.parse(textwrap.dedent(src))
+    if src[:1].isspace():
+        # An indented definition (a method, a nested function): parse it
+        # inside a block instead of dedenting the text, which would also
+        # change the string literals that span several lines.
+        tree = ast.parse("if True:\n" + src)
+        tree.body = tree.body[0].body
+        ast.increment_lineno(tree, -1)
+    else:
+        tree = ast.parse(src)
     new = NameConverter(
         anal=ovld.argument_analysis,
         recurse_sym=recurse_sym,
